@@ -398,6 +398,13 @@ inline void register_group_b() {
   register_quantile_family<QuantFam<double>>("quantiles_double", 14);
   register_quantile_family<QuantFam<float>>("quantiles_float", 7);
   register_quantile_family<QuantFam<std::string>>("quantiles_string", 7);
+  shipped().push_back(Shipped{"kll/test/kll_sketch_float_one_item_v1.sk", "kll_sketch_float_one_item_v1.sk", "kll",
+    [](const std::string& img, bool stream) { return KllFam<float>::readout(KllFam<float>::read(img, stream)); }});
+  for (const char* n : {"50", "1000"}) for (const char* v : {"0.3.0", "0.6.0", "0.8.0", "0.8.3"}) {
+    const std::string f = std::string("Qk128_n") + n + "_v" + v + ".sk";
+    shipped().push_back(Shipped{"quantiles/test/" + f, f, "quantiles",
+      [](const std::string& img, bool stream) { return QuantFam<double>::readout(QuantFam<double>::read(img, stream)); }});
+  }
 #endif
 #ifdef C10_B2
   register_fi_family<FiFam<int64_t>>("fi_int64", 15);
